@@ -148,9 +148,10 @@ theorem clientRecvMany_inv (cfg : Cfg) (sid : Sid) : ∀ (dgs : List Bytes) (st 
   | [], st, h => h
   | d :: ds, st, h => by
     simp only [clientRecvMany]
+    apply clientRecvMany_inv cfg sid ds
     split
     · exact h
-    · apply clientRecvMany_inv cfg sid ds
+    · unfold touchClient
       split
       · exact h
       · rename_i s hs; exact InvC.touch h hs rfl rfl
@@ -605,9 +606,10 @@ theorem clientRecvMany_idx (cfg : Cfg) (sid : Nat) : ∀ (ds : List Bytes) (st :
   | [], _ => rfl
   | d :: ds, st => by
     simp only [clientRecvMany]
+    rw [clientRecvMany_idx cfg sid ds]
     split
     · rfl
-    · rw [clientRecvMany_idx cfg sid ds]
+    · unfold touchClient
       split <;> rfl
 
 /-- **stability, one step**: whatever the I/O thread does next, `peerIndex a = some sid` survives unless `sid` itself is closed
@@ -778,9 +780,7 @@ theorem clientRecvMany_no_accept (cfg : Cfg) (sid : Sid) (s' a : Nat) : ∀ (ds 
   | [], _ => by simp [clientRecvMany]
   | d :: ds, st => by
     simp only [clientRecvMany]
-    split
-    · simp
-    · simp [clientRecvMany_no_accept cfg sid s' a ds]
+    simp [clientRecvMany_no_accept cfg sid s' a ds]
 
 theorem step_no_accept (cfg : Cfg) (tok : Nat) (st : State) (i : In) (a sid : Nat) (hix : st.peerIndex (cfg.key a) = some sid) (s' : Nat) :
     Out.accept s' a ∉ (step cfg tok st i).2 := by
